@@ -1017,7 +1017,10 @@ def subtotal_free_types(ctx: Ctx, rule: str = "subtotal-free-types"):
                         for has_ins in (True, False):
                             for gs, leaf in paths:
                                 if all((bool(eval_over_types(ctx.repo, ci.module, t, {"self.dimension_type": mem})) if "dimension_type" in u(t) else has_ins) == pol for t, pol in gs):
-                                    is_empty = isinstance(leaf, ast.Call) and u(leaf.func).endswith("_Subtotals") and leaf.args and u(leaf.args[0]) in ("[]", "()", "tuple()", "list()", "{}")
+                                    # the collection is built by `_Subtotals(dicts, ..)` or by a helper of that name taking the dicts first
+                                    if not (isinstance(leaf, ast.Call) and "subtotals" in u(leaf.func).lower() and leaf.args):
+                                        raise DTop(f"leaf not recognised as a subtotals construction: {u(leaf)[:60]}")
+                                    is_empty = u(leaf.args[0]) in ("[]", "()", "tuple()", "list()", "{}")
                                     n += 1
                                     if is_empty != (mem in spec):
                                         bad.append(f"{mem}, insertions in the analysis transforms {'present' if has_ins else 'absent'}: subtotals {'dropped' if is_empty else 'kept'} (specified {'dropped' if mem in spec else 'kept'})")
